@@ -742,7 +742,10 @@ func (m *metadataStoreIndex) postHandlerSentAliases() error {
 	for _, evt := range m.eventsContactAddAliasKey {
 		memberPublicKey, err := m.unsafeGetMemberByDevice(evt.DevicePk)
 		if err != nil {
-			return fmt.Errorf("couldn't get member for device")
+			// the device has not been announced (yet): ignore its alias key for
+			// now instead of failing the whole index update, the event is
+			// looked at again on every re-indexing of the log
+			continue
 		}
 
 		if memberPublicKey.Equals(m.ownMemberDevice.Member()) {
